@@ -200,6 +200,7 @@ func runC07(r *core.Run) {
 			var stderr bytes.Buffer
 			cmd.Stderr = &stderr
 			out, err := cmd.Output()
+			core.Progress.Add(1)
 			var sr c07Shard
 			if err != nil || json.Unmarshal(bytes.TrimSpace(out), &sr) != nil {
 				mu.Lock()
@@ -331,6 +332,7 @@ func c07RacePass(r *core.Run, b *c07Build) {
 			cmd := exec.Command(b.race, t.sc, t.cfg, fmt.Sprint(rounds))
 			cmd.Env = append(os.Environ(), fmt.Sprintf("GOMAXPROCS=%d", t.procs), "GORACE=halt_on_error=1 exitcode=66")
 			out, err := cmd.CombinedOutput()
+			core.Progress.Add(1)
 			s.Evals.Add(int64(rounds))
 			so := string(out)
 			if strings.Contains(so, "WARNING: DATA RACE") {
